@@ -5,7 +5,7 @@ lists below enumerate program shapes; the solver quantifies over the datapoints.
 """
 import itertools
 
-from vt.astb import (jbody, agg, aggr, analytic, assign, between, binop, calc, case, cast, const, drop, filter_, having, if_, in_,
+from vt.astb import (unpivot, jbody, agg, aggr, analytic, assign, between, binop, calc, case, cast, const, drop, filter_, having, if_, in_,
                      join, keep, member, paramop, par, rename, setop, start, structure, sub, unop, var, window, optional)
 
 I, M = "Identifier", "Measure"
@@ -179,6 +179,10 @@ def c02(tier):
     cond1 = binop(">", "Me_1", 1)
     cond2 = binop("and", binop(">", "Me_1", 0), binop("<", "Me_2", 5))
     cond3 = binop("or", unop("isnull", "Me_1"), binop("=", "Id_2", const("a")))
+    out.append(T("unpivot_two_measures", unpivot("DS_1", "Id_9", "Me_9"), n))
+    out.append(T("unpivot_one_measure", unpivot("DS_4", "Id_9", "Me_9"), n))
+    out.append(T("unpivot_then_filter", filter_(unpivot("DS_1", "Id_9", "Me_9"), binop(">", "Me_9", 0)), n))
+    out.append(T("filter_then_unpivot", unpivot(filter_("DS_1", cond1), "Id_9", "Me_9"), n))
     out.append(T("filter_gt", filter_("DS_1", cond1), n))
     out.append(T("filter_and", filter_("DS_1", cond2), n))
     out.append(T("filter_or_isnull", filter_("DS_1", cond3), n))
@@ -724,6 +728,9 @@ def c29(tier):
     TC("calc_add_variant", calc("DS_4", [("measure", "me_1", binop("+", "Me_1", 1))]))
     TC("calc_add_variant_upper", calc("DS_4", [("measure", "ME_1", binop("*", "Me_1", 2))]))
     TC("calc_then_use_both", calc(calc("DS_4", [("measure", "me_1", binop("+", "Me_1", 1))]), [("measure", "Me_3", binop("-", "me_1", "Me_1"))]))
+    TC("unpivot_to_measure_variant", unpivot("DS_1", "Id_9", "me_1"))
+    TC("unpivot_to_id_variant", unpivot("DS_1", "id_2", "Me_9"))
+    TC("unpivot_to_same_name", unpivot("DS_1", "Id_9", "Me_1"))
     TC("join_rename_variants", jbody(join("inner_join", [("DS_4", "d1"), ("DS_5", "d2")]), lambda j: rename(j, [("d1#Me_1", "me_1"), ("d2#Me_1", "Me_2")])))
     # inputs that already hold case variants
     TC("input_two_variants_copy", var("DS_C"))
